@@ -12,6 +12,7 @@ from __future__ import annotations
 
 import itertools
 import json
+from ipaddress import IPv4Address
 from typing import Any, Dict, List, Optional
 
 from hypothesis import strategies as st
@@ -23,7 +24,9 @@ ID = "C17"
 WORKERS = {"quick": 8, "thorough": 16}
 RULE = (
     "case = scenario (routed with ACL | one LAN; 1-3 client hosts; max_sessions 1/2/3/100; server password set or "
-    "None; power durations 1-2) + op sequence over {connect right/wrong/no password, execute request, query "
+    "None; power durations 1-2) + op sequence over {connect right/wrong/no password, execute request, a red application "
+    "(data-manipulation-bot | ransomware-script, own password right/wrong/none, stage probabilities 1) attacking through "
+    "the host's database-client, query "
     "SELECT/INSERT/DELETE/ENCRYPT/unknown on a live | re-made (clone of an issued id) | never-issued handle, "
     "disconnect, server-led close, client uninstall/install, client application close/run, client NIC off/on, service "
     "stop/start/pause/resume/restart/fix, backup, restore, file repair, node power off/on (db, backup host, client "
@@ -53,6 +56,8 @@ FINDING_STICKY = "C17-overwhelmed-sticky"
 DB, BK, RT = "db", "bk", "r"
 WRONG_PW = "bad"
 SQL = {"SELECT": "SELECT", "INSERT": "INSERT", "DELETE": "DELETE", "ENCRYPT": "ENCRYPT", "UNKNOWN": "DROP TABLE"}
+BOT_APP = {"dm": "data-manipulation-bot", "rw": "ransomware-script"}
+BOT_SQL = {"dm": "DELETE", "rw": "ENCRYPT"}
 ACL_POS = {"pg": 1, "ftp": 2}
 ACL_PORT = {"pg": "POSTGRES_SERVER", "ftp": "FTP"}
 BW = 100000
@@ -108,6 +113,13 @@ def scenario(case: Dict) -> Dict:
             }
         )
     nodes.append(switch("sw", 8, start_up_duration=0, shut_down_duration=0))
+    # red applications (anchored in the property) are installed on the client hosts whose ops use them
+    red = {op[1] % n for op in case["ops"] if op and op[0] == "bot"}
+    red_apps = [
+        {"type": "data-manipulation-bot", "options": {"server_ip": ip["db"], "payload": "DELETE", "repeat": True,
+                                                      "port_scan_p_of_success": 1.0, "data_manipulation_p_of_success": 1.0}},
+        {"type": "ransomware-script", "options": {"server_ip": ip["db"], "payload": "ENCRYPT"}},
+    ]
     for i in range(n):
         nodes.append(
             computer(
@@ -116,7 +128,7 @@ def scenario(case: Dict) -> Dict:
                 gw=gw["c"],
                 start_up_duration=dur,
                 shut_down_duration=dur,
-                applications=[{"type": "database-client", "options": {"db_server_ip": ip["db"]}}],
+                applications=[{"type": "database-client", "options": {"db_server_ip": ip["db"]}}] + (red_apps if i in red else []),
             )
         )
         links.append(link("sw", i + 1, f"c{i}", 1, bandwidth=BW))
@@ -169,6 +181,7 @@ class Model:
         self.pw_cfg: List[Optional[str]] = [None] * n
         self.handles: List[List[Dict]] = [[] for _ in range(n)]  # {"obj","cid","active"}
         self.native: List[Optional[Dict]] = [None] * n
+        self.bot: List[Dict[str, Optional[Dict]]] = [{"dm": None, "rw": None} for _ in range(n)]  # cached bot handles
 
 
 def run_case(case: Dict) -> CaseResult:
@@ -421,6 +434,53 @@ def run_case(case: Dict) -> CaseResult:
                 if status == "success":
                     res.violate("execute-success-without-connection", f"{when}: execute succeeded with no native connection")
             sync_sets(when, "execute")
+        elif k == "bot":
+            # a red application on client host i logs in through the host's database-client with ITS OWN password
+            # (None = no password) and delivers its payload; same oracle as any other connection source
+            _, i, kind, pwk = op
+            i %= n
+            name = BOT_APP[kind]
+            bot = cnodes[i].software_manager.software.get(name)
+            if bot is None:
+                raise AssertionError(f"harness assumption: {name} is not installed on c{i}")
+            if not usable(i) or bot.operating_state != ApplicationOperatingState.RUNNING:
+                res.label("skipped:bot-host-client-not-running")
+                return
+            c = client(i)
+            pw = {"right": M.pw, "wrong": WRONG_PW, "none": None}[pwk]
+            if kind == "dm":
+                cut(
+                    bot.configure, server_ip_address=IPv4Address(ip["db"]), server_password=pw, payload="DELETE",
+                    port_scan_p_of_success=1.0, data_manipulation_p_of_success=1.0, repeat=True,
+                )
+            else:
+                bot.server_password = pw  # RansomwareScript.configure() cannot take a password away again
+            res.label(
+                f"bot:{kind}:bot-pw-{pwk}:host-pw-"
+                + ("right" if M.pw_cfg[i] == M.pw else "none" if M.pw_cfg[i] is None else "wrong")
+            )
+            had = M.bot[i][kind]
+            down = not (node_on() and running())
+            guard = unavailable_guard(full=not wire(i)) if (down or not wire(i)) else None
+            health = svc.health_state_actual
+            c.last_query_response = None
+            status = request(am.form_request("node-application-execute", {"node_name": f"c{i}", "application_name": name}))
+            M.pw_cfg[i] = pw  # the bot hands its credentials to the host client (documented behaviour of both bots)
+            if had is None:
+                ent = judge_connect(i, pw, bot._db_connection, health, None, when, f"bot-{kind}")  # noqa
+                M.bot[i][kind] = ent
+            ent = M.bot[i][kind]
+            if ent is not None:
+                if ent["obj"] is not bot._db_connection:  # noqa
+                    raise AssertionError("harness assumption: the bot keeps the connection handle it was given")
+                resp = c.last_query_response
+                r = bool(resp) and resp.get("status_code") == 200
+                if kind == "rw" and r != (status == "success"):
+                    res.violate("bot-result-disagrees-with-response", f"{when}: execute {status}, service answered {resp}")
+                judge_query(i, ent["cid"], ent["active"] and usable(i), BOT_SQL[kind], r, health, guard, when, "bot")
+            elif guard is not None:
+                check_unchanged(guard, when, "bot")
+            sync_sets(when, "bot")
         elif k == "query":
             _, i, hk, idx, sqlk = op
             i %= n
@@ -723,6 +783,7 @@ def op_strategy():
         st.tuples(st.just("uninstall"), ci),
         st.tuples(st.just("install"), ci),
         st.tuples(st.just("srv_close"), ci, st.sampled_from([0, 1, 2, 99, 99])),
+        st.tuples(st.just("bot"), ci, st.sampled_from(["dm", "rw"]), st.sampled_from(["none", "none", "wrong", "right"])),
         st.tuples(st.just("app"), ci, st.sampled_from(["close", "run", "run"])),
         st.tuples(st.just("nic"), ci, st.sampled_from(["off", "on", "on"])),
         st.tuples(st.just("power"), st.sampled_from(["c0", "c1", "c2"]), st.sampled_from(["off", "on", "on"])),
@@ -813,6 +874,14 @@ def snippet_strategy():
             + t[1][2]
             + [["query", t[0], "last", 0, t[2]], ["query", t[0], "last", 0, "SELECT"], ["query", t[0], "clone", 99, "INSERT"]]
         ),
+        # a red application logs in from a host whose legitimate client holds some password
+        st.tuples(
+            ci, st.sampled_from(["right", "right", "wrong", "none"]), st.sampled_from(["dm", "rw"]),
+            st.sampled_from(["none", "none", "wrong", "right"]), st.sampled_from(["none", "wrong", "right"]),
+        ).map(
+            lambda t: [["connect", t[0], t[1]], ["bot", t[0], t[2], t[3]], ["query", t[0], "last", 0, "SELECT"],
+                       ["bot", t[0], t[2], t[4]], ["execute", t[0]]]
+        ),
         # bring a client back
         ci.map(lambda i: [["power", f"c{i}", "on"], ["tick", 3], ["app", i, "run"], ["nic", i, "on"]]),
         # close, then use the id again through a fresh handle object
@@ -881,6 +950,9 @@ EXH_ALPHABET = [
     ["tick", 2],
 ]
 EXH_EXTRA = [  # thorough tier only
+    ["bot", 0, "dm", "none"],
+    ["bot", 0, "rw", "wrong"],
+    ["bot", 0, "dm", "right"],
     ["svc", "fix"],
     ["power", "c0", "off"],
     ["power", "c0", "on"],
